@@ -501,6 +501,15 @@ impl Monitor for C08 {
             return;
         }
         let idx = s.event_index;
+        // The receivership exception ("anyone may withdraw/repay") is valid strictly inside an
+        // active bracket.  A marker that outlives its transaction voids the signer check for
+        // every later transaction, so it is an authorization violation in its own right.
+        for (k, a) in model::all_accounts(s.post) {
+            if a.account_flags & ACCOUNT_IN_RECEIVERSHIP != 0 {
+                out.push(viol("C08", "signer_check_voided_outside_bracket", &crate::sim::tx_tag(s.tx),
+                    format!("account {k} is left in receivership after the transaction: any signer may now withdraw/repay"), idx));
+            }
+        }
         // sampling with a bias toward instruction kinds not yet swept in this run
         let tags: Vec<&'static str> = s.tx.ixs.iter().filter(|x| x.program_id == marginfi_id()).map(|x| x.tag).collect();
         if tags.is_empty() {
